@@ -16,7 +16,9 @@
 (* globe (both signs, the poles, +-180); the offset of the true position is *)
 (* uniform over +-3.3 / +-6.7 degree, or sits on an edge of the decodable   *)
 (* window or next to the reference (one vector in four); speed bytes are    *)
-(* arbitrary, zero or extreme.                                              *)
+(* arbitrary, zero or extreme; one vector in eleven is a steady turn whose  *)
+(* track extrapolated to the time of the packet is exactly north (0 degree, *)
+(* the closed end of [0, 360)).                                             *)
 EXTENDS Flarm, TLC, IOUtils, Json
 
 Seed == IF "GEN_SEED" \in DOMAIN IOEnv THEN atoi(IOEnv.GEN_SEED) ELSE 1
@@ -74,8 +76,30 @@ Speeds(i, h) ==
     [] i % 9 = 7 -> [k \in 1..4 |-> SpeedEdges[(WordBytes(h)[k] % 8) + 1]]
     [] OTHER     -> WordBytes(h)
 
+(* A steady turn through north.  The packet carries the velocity at +4 s,   *)
+(* +8 s, ... (north/south and east/west components, signed bytes).  Take    *)
+(* (a, b) at +4 s, i.e. track theta = angle of a + ib, and the same         *)
+(* direction turned by theta once more at +8 s: k (a + ib)^2 =              *)
+(* k (a^2 - b^2, 2ab).  The turn rate is theta per 4 s, so the track at the *)
+(* time of the packet is theta - theta = 0 exactly.                         *)
+SByte(x) == x % 256                             \* two's complement byte of x in -128..127
+AbsI(x) == IF x < 0 THEN -x ELSE x
+Turn(h1, h2) ==
+  LET a == (h1[1] % 15) - 7
+      b == (h1[2] % 15) - 7
+      c == a * a - b * b
+      d == 2 * a * b
+      m == IF AbsI(c) > AbsI(d) THEN AbsI(c) ELSE AbsI(d)
+      k == IF m = 0 THEN 1 ELSE 1 + (h2[1] % (127 \div m))
+      r == WordBytes(h2)
+  IN [ ns |-> <<SByte(a), SByte(k * c), r[1], r[2]>>,
+       ew |-> <<SByte(b), SByte(k * d), r[3], r[4]>> ]
+
+IsTurn(i) == i % 11 = 10
+
 Tuple(i) ==
   LET h   == [j \in 1..12 |-> Rnd(i, j)]
+      tn  == Turn(h[10], h[11])
       ref == Refs[(i % Len(Refs)) + 1]
       ts  == CASE i % 8 = 6 -> TimeEdges[((i \div 8) % Len(TimeEdges)) + 1]
                [] i % 8 = 7 -> h[1]
@@ -90,12 +114,14 @@ Tuple(i) ==
        lat |-> Coord(i, ref[1], LatMod, 33000000, 900000000, h[4], h[5]),
        lon |-> Coord(i \div 4 + 3 * (i % 4), ref[2], LonMod, 67000000, 1800000000, h[6], h[7]),
        reflat |-> ref[1], reflon |-> ref[2],
-       mult |-> h[8][1] % 4, sp0 |-> h[8][2] % 8, sp1 |-> (h[8][2] \div 8) % 2,
+       mult |-> IF IsTurn(i) THEN 0 ELSE h[8][1] % 4, sp0 |-> h[8][2] % 8, sp1 |-> (h[8][2] \div 8) % 2,
        sp2 |-> h[9][1] % 1024,
-       ns |-> Speeds(i, h[10]), ew |-> Speeds(i \div 9, h[11]),
+       ns |-> IF IsTurn(i) THEN tn.ns ELSE Speeds(i, h[10]),
+       ew |-> IF IsTurn(i) THEN tn.ew ELSE Speeds(i \div 9, h[11]),
        tail |-> <<h[12][2] % 256, h[12][2] \div 256>> ]
 
-Vector(i) == LET p == Tuple(i) IN [i |-> i, p |-> p, pkt |-> Packet(p)]
+Vector(i) == LET p == Tuple(i) IN
+  [i |-> i, p |-> p, pkt |-> Packet(p), fam |-> IF IsTurn(i) THEN "turn_through_north" ELSE "plain"]
 
 ASSUME Emit ==
   \A i \in From..To :
